@@ -235,16 +235,40 @@ func ringSimilar(a, b []Point, e float64) bool {
 	if len(a) != len(b) {
 		return false
 	}
-	ia := minPt(a)
-	ib := minPt(b)
-	for i := 0; i < len(a); i++ {
-		if !pointSimilar(a[ia], b[ib], e) {
-			return false
-		}
-		ia = nextPt(ia, len(a))
-		ib = nextPt(ib, len(b))
+	// A closed ring repeats its first vertex at the end.
+	na, nb := len(a), len(b)
+	if na > 1 && a[0] == a[na-1] {
+		na--
 	}
-	return true
+	if nb > 1 && b[0] == b[nb-1] {
+		nb--
+	}
+	if na != nb {
+		return false
+	}
+	if na == 0 {
+		return true
+	}
+	// The rings may start at different vertices. Anchoring both at their
+	// bottom-left-most vertex is not reliable, because that vertex can change
+	// when coordinates differ within the tolerance (e.g., the two left corners
+	// of a rectangle), so every vertex of b that matches a[0] is tried.
+	for s := 0; s < nb; s++ {
+		if !pointSimilar(a[0], b[s], e) {
+			continue
+		}
+		match := true
+		for i := 1; i < na; i++ {
+			if !pointSimilar(a[i], b[(s+i)%nb], e) {
+				match = false
+				break
+			}
+		}
+		if match {
+			return true
+		}
+	}
+	return false
 }
 
 // ring iterator function
